@@ -30,6 +30,32 @@ def random_perm(rng, n):
     return P()(lst)
 
 
+def random_block_perm(rng, n, max_block=4, skew=False):
+    """Seeded permutation of length n that is a direct sum (skew sum if `skew`) of random blocks of
+    length 1..max_block: many sum components, fixed points, strong fixed points, records and short
+    cycles at every position - the shape uniformly random long permutations almost never have."""
+    out = []
+    while len(out) < n:
+        k = min(rng.randint(1, max_block), n - len(out))
+        blk = list(range(k))
+        rng.shuffle(blk)
+        base = len(out)
+        out.extend([base + v for v in blk])
+    if skew:
+        out = [n - 1 - v for v in out]
+    return P()(out)
+
+
+def block_perms(rng, count, lo=9, hi=20, max_block=4):
+    """count seeded block-structured permutations (see random_block_perm), mostly direct sums, every eighth a skew sum,
+    with lengths cycling through lo..hi."""
+    out = []
+    for i in range(count):
+        n = lo + i % (hi - lo + 1)
+        out.append(random_block_perm(rng, n, max_block=(2, 3, max_block, max_block + 2)[(i // 2) % 4], skew=(i % 8 == 7)))
+    return out
+
+
 def cells(k):
     return [(x, y) for x in range(k + 1) for y in range(k + 1)]
 
